@@ -10,7 +10,7 @@ from hypothesis import strategies as st
 from .. import build, gen, isolate, refsem
 from .. import estimation_common as ec
 from ..runner import Outcome, SubCheck
-from .c01 import reference_values, features
+from .c01 import reference_values, features, tol
 
 PROPERTY = 'C03'
 LEVEL = 'exploration'
@@ -214,7 +214,7 @@ def judge_likelihood(case) -> Outcome:
         return out
     total = sum(ev.v for ev in refs)
     scale = 1 + sum(abs(ev.v) for ev in refs)
-    if not abs(A['like'] - total) <= 1e-9 * scale:
+    if not abs(A['like'] - total) <= 1e-9 * scale + sum(tol(ev) for ev in refs):
         out.fail('likelihood:value', f'calculate_likelihood {A["like"]!r} vs reference {total!r}' + where)
     if not abs(A['like'] - B['like']) <= 1e-9 * scale:
         out.fail('likelihood:renaming', f'log likelihood {A["like"]!r} becomes {B["like"]!r} after renaming/reordering' + where)
@@ -235,24 +235,24 @@ def judge_likelihood(case) -> Outcome:
             out.fail('get_beta_values', f'initial value of {n!r}: {A["beta_values"].get(n)!r} / {B["beta_values"].get(mapping[n])!r} vs {betas[n][2]!r}' + where)
             break
     for i, (a, b, ev) in enumerate(zip(A['sim'], B['sim'], refs)):
-        if not (abs(a - ev.v) <= 1e-9 * (1 + abs(ev.v)) and abs(a - b) <= 1e-9 * (1 + abs(ev.v))):
+        if not (abs(a - ev.v) <= tol(ev) + 1e-9 * (1 + abs(ev.v)) and abs(a - b) <= 1e-9 * (1 + abs(ev.v))):
             out.fail('simulate:renaming', f'row {i}: simulate gives {a!r} / twin {b!r} / reference {ev.v!r}' + where)
             break
     for i, (a, b, ev) in enumerate(zip(A['partial'], B['partial'], refs_partial)):
-        if not (abs(a - ev.v) <= 1e-9 * (1 + abs(ev.v)) and abs(b - ev.v) <= 1e-9 * (1 + abs(ev.v))):
+        if not (abs(a - ev.v) <= tol(ev) + 1e-9 * (1 + abs(ev.v)) and abs(b - ev.v) <= tol(ev) + 1e-9 * (1 + abs(ev.v))):
             out.fail('partial_dictionary', f'row {i}: get_value_c(betas={case["partial"]}) gives {a!r} / twin {b!r}; with the named '
                                            f'parameters overridden and all others at their initial value the value is {ev.v!r}' + where)
             break
     for tagX, obs in (('A', A), ('B', B)):
         for which in ('after_partial', 'after_partial_empty'):
             for i, (a, ev) in enumerate(zip(obs[which], refs_initial)):
-                if not abs(a - ev.v) <= 1e-9 * (1 + abs(ev.v)):
+                if not abs(a - ev.v) <= tol(ev) + 1e-9 * (1 + abs(ev.v)):
                     out.fail('partial_dictionary:leaks', f'row {i}: after get_value_c(betas={case["partial"]}) the same formula evaluated '
                                                          f'without values gives {a!r}; at the initial values it is {ev.v!r}' + where)
                     return out
         if refs_reinit is not None and 'after_reinit' in obs:
             for i, (a, ev) in enumerate(zip(obs['after_reinit'], refs_reinit)):
-                if not abs(a - ev.v) <= 1e-9 * (1 + abs(ev.v)):
+                if not abs(a - ev.v) <= tol(ev) + 1e-9 * (1 + abs(ev.v)):
                     out.fail('change_init_values:not_used', f'row {i}: after an evaluation with a dictionary and then change_init_values('
                                                             f'{reinit}) the formula evaluates to {a!r}; with these values it is {ev.v!r}' + where)
                     return out
